@@ -19,7 +19,7 @@ URLDEC = ["a", "0", "F", "%", "+", "/", " ", "\u00e9", "\U0001F600",
 QS = [b"a", b"b", b"=", b"&", b"+", b"%", b"%41", b"%26", b"%3D", b"%ff", b"%2",
       b"\x00", b" ", b"\x80", b"\xc3", b"\xff", b";"]
 JS = ["a", "<", "/", "\\", '"', "\u00e9", "\x00", "\u2028", "\U0001F600", "&",
-      "</script>"]
+      "</script>", "<!--", "-->", "!", "-", "<script", ">", "]]>", "'"]
 
 DEPTH = {
     #            text  bytes urldec qs  jsonstr
@@ -554,7 +554,7 @@ def json_values(tier, which):
     nstr = DEPTH[tier][4]
     atoms = [None, True, False, 0, -1, 1.5]
     l1 = atoms + ["", "<", "/", "</", "</script>", "a", "\\", "<\\/", "<<//", " </"]
-    k1 = ["", "<", "/", "</", "a", "</script>"]
+    k1 = ["", "<", "/", "</", "a", "</script>", "<!--"]
     if which == "leaf":
         yield from atoms
         yield from json_strings(nstr)
